@@ -54,6 +54,8 @@ def fixed_cases():
         ("cs_status", "x=$(echo out; exit 7); echo \"x=$x st=$?\""),
         ("cs_status_same_as_before", "false; x=$(false); echo \"st=$?\"; (exit 3); y=$(exit 3); echo \"st=$?\"; z=$(exit 3); echo \"st=$?\"; w=$(true); echo \"st=$?\""),
         ("cs_status_in_if", "(exit 1); if v=$(echo hi; exit 1); then echo then; else echo \"else:$v\"; fi"),
+        ("cs_multibyte_big", "x=$(gen 200001 0 u); printf '%s' \"$x\" | cksum; y=$(gen 300001 0 u | cat | cat); printf '%s' \"$y\" | cksum"),
+        ("pipe_multibyte_big", "gen 400001 0 u | { cat; } | while IFS= read -r l; do printf '%s' \"$l\"; done | cksum"),
         ("cs_nested", "x=$(echo \"$(gen 70000 | cksum)\"); echo \"$x\""),
         ("cs_backquote", "x=`gen 100000 | wc -c`; echo $x"),
         ("cs_in_pipeline", "echo \"$(gen 200000)\" | cksum"),
